@@ -17,6 +17,21 @@ Mutation sanity check (scratch copies, quick tier, seed 0; all reported VIOLATIO
   M3 `BaseIndexMixin._negate` short-cut returns `indexed()` (drops value-less documents)
   M4 `Ge.negate` returns `Le`                                            M5 `Query.intersect` returns left when
      right is empty
+
+Generator modes added against size-, arity- and constant-dependent changes (quick tier, seed 0, 6000 cases; shares
+measured by `features`): `large` 10% (40-400 documents, cubically skewed value frequencies: 415 executed trees
+meet an operand > 32x smaller than the running result - 114 of them not a subset of it -, 229 the opposite
+orientation; 25% of the skewed trees start with a stored keyword posting followed by tiny operands), `wide`
+10% (And/Or of 9-40 operands after flattening - flat, nested same-type groups, & / | chains, Not over the dual
+node: 2100 trees with 17-32 operands, 800 with > 32), `twocat` 6% (same-named indexes of two catalogs mixed in
+one query), `exotic` 5% (`xapply`: RangeValue / float / tuple-container / late-bound Name / legacy tuple-list
+constants, execute and _apply against the independent evaluation qtree.xsem; the model side only acknowledges
+these commands).  `applystable` executes twice and re-asks every operand before and after.
+Seeded changes C04_A-F all give VIOLATION with a failing input (E: probe path of intersect, F: pairwise merge
+of > 16 Or operands).  Own mutations of the same classes (scratch copies, quick, seed 0; all VIOLATION):
+  N1 `Query.union` updates a > 32x bigger left operand in place (corrupts a stored keyword posting for the
+     queries that follow)                     N2 `And._apply` with > 16 operands intersects smallest-first and
+     stops at one document                    N5 `FieldIndex.applyGt(v)` = applyInRange(v + 1) (wrong for 2.5)
 """
 from lib import qtree
 from lib.core import exc_name, idset
@@ -30,7 +45,12 @@ THEOREMS = ["Hyp.Query." + t for t in (
     "c04_apply_congruence", "c04_apply_leaves_only", "c04_and_end_to_end")]
 CASES = {"quick": 6000, "thorough": 150000}
 BUDGET_S = {"quick": 40, "thorough": 700}
-RULE = ("catalogs of 1-4 real indexes (field, keyword, facet, text) with 0-25 documents; half of the catalogs are "
+RULE = ("modes: small 69% (below), large 10% (40-400 documents, skewed value frequencies, operands differing in "
+        "size by > 32x in either order, stored posting first), wide 10% (And/Or with 9-40 operands around 16/32, "
+        "flat / nested / operator chains / under Not), twocat 6% (same-named indexes of two catalogs), exotic 5% "
+        "(xapply: RangeValue, float, tuple container, Name, legacy tuple/list constants against an independent "
+        "Python evaluation - no Lean answer for these); small: "
+        "catalogs of 1-4 real indexes (field, keyword, facet, text) with 0-25 documents; half of the catalogs are "
         "Total (every document has a non-empty value in every index) and exercise the complement clause, the "
         "other half leave values out (then only And/Or clauses are checked against the specification); random "
         "trees of depth <= 4, arity 1-4, repeated operands, 7% comparators the index does not implement; "
